@@ -184,7 +184,9 @@ func (r *runner) run(ctx context.Context, isStream bool, input any, opts ...Opti
 					return nil, newGraphRunError(fmt.Errorf("state modifier fail: %w", err))
 				}
 			}
-			if cp.State != nil {
+			if cp.State != nil && r.runCtx != nil {
+				// only a graph that owns its state restores it from its own checkpoint; a nested
+				// graph without state keeps sharing the (restored) state of its parent
 				ctx = context.WithValue(ctx, stateKey{}, &internalState{state: cp.State})
 			}
 
